@@ -28,11 +28,19 @@ def _try_decode(cls, st, data, e, fail, txt, what):
     m = cls()
     signal.signal(signal.SIGALRM, _alarm)
     signal.setitimer(signal.ITIMER_REAL, 2.0)
+    import tracemalloc
+    budget = 64 * 1024 + 1024 * len(data)          # "never allocates memory disproportionate to the input"
+    tracemalloc.start()
     try:
         try:
             m.decode(data, e)
         finally:
             signal.setitimer(signal.ITIMER_REAL, 0)
+            peak = tracemalloc.get_traced_memory()[1]
+            tracemalloc.stop()
+            if peak > budget:
+                fail('allocation', txt, data.hex(), '%s: decode of %d bytes allocated %d bytes (budget 64 KiB + 1 KiB per input byte)'
+                     % (what, len(data), peak))
     except prophy.ProphyError:
         return
     except Slow:
